@@ -131,12 +131,47 @@ Proof.
       exfalso. rewrite Ea in Hi. lia.
 Qed.
 
+(* ---------- from header frames to payload frames ---------- *)
+Lemma hdr_outside hs he L B live b h k w :
+  raw_inv hs he L B live -> In b live -> is_hdr he L h -> hk k ->
+  b_addr b - 8 < w < b_addr b + b_size b -> w <> h + k.
+Proof.
+  intros [Hpos Htop Ht Hal Hb Hl] Hbl Hh Hk Hw. pose proof NODE_eq as HN.
+  destruct Hl as (Hl1 & _ & _). rewrite Forall_forall in Hl1. destruct (Hl1 b Hbl) as (x & Hx & Hu & Ea & Hsz).
+  destruct (chunk_bounds hs he L Ht Hal x Hx) as (X1 & X2 & X3 & X4).
+  destruct Hh as [Hh | ->].
+  - apply in_map_iff in Hh. destruct Hh as (y & <- & Hy).
+    destruct (chunk_bounds hs he L Ht Hal y Hy) as (Y1 & Y2 & Y3 & Y4).
+    destruct (chunk_sep hs he L Ht x y Hx Hy) as [-> | [H1 | H1]]; unfold hk in Hk; lia.
+  - unfold hk in Hk. lia.
+Qed.
+
+Lemma payload_of_hframe hs he L B live L' B' live' m m' :
+  raw_inv hs he L B live -> raw_inv hs he L' B' live' -> hframe (hdrs2 he L L') m m' -> payload_frame live live' m m'.
+Proof.
+  intros Hi Hi' Hf b b' Hb Hb' Ea w Hw. apply Hf. intros h k [Hh | Hh] Hk.
+  - apply (hdr_outside hs he L B live b h k w Hi Hb Hh Hk). lia.
+  - apply (hdr_outside hs he L' B' live' b' h k w Hi' Hb' Hh Hk). rewrite <- Ea. lia.
+Qed.
+
+Lemma payload_refl live live' m : payload_frame live live' m m.
+Proof. intros b b' _ _ _ w _. reflexivity. Qed.
+
+Lemma payload_two hs he L B live L' B' live' m m' :
+  raw_inv hs he L B live -> raw_inv hs he L' B' live' -> two_frames hs he L live L' m m' -> payload_frame live live' m m'.
+Proof.
+  intros Hi Hi' (L1 & B1 & m1 & live1 & Hi1 & Hinc & F1 & F2) b b' Hb Hb' Ea w Hw.
+  pose proof (payload_of_hframe _ _ _ _ _ _ _ _ _ _ Hi Hi1 F1) as P1.
+  pose proof (payload_of_hframe _ _ _ _ _ _ _ _ _ _ Hi1 Hi' F2) as P2.
+  rewrite (P2 b b' (Hinc b Hb) Hb' Ea w Hw). apply (P1 b b Hb (Hinc b Hb) eq_refl w). lia.
+Qed.
+
 (* ---------- one step ---------- *)
 Lemma cstep_sim c s sa live o :
   hcfg_ok c -> hinv c sa live -> SR c s sa -> hop_usize o ->
   exists s' sa' live',
     cstep c (s, live) o = Some (s', live') /\ hstep c (sa, live) o = Some (sa', live') /\
-    hinv c sa' live' /\ SR c s' sa'.
+    hinv c sa' live' /\ SR c s' sa' /\ payload_frame live live' (h_mem s) (h_mem s').
 Proof.
   intros Hc Hi (Hfl & Hrep & Hnom) Hd.
   destruct (hstep_ok c sa live o Hc Hi Hd) as (sa' & live' & Hst & Hi').
@@ -148,31 +183,36 @@ Proof.
     unfold hp_alloc, ensure_init. unfold ha_alloc, ha_ensure_init in Hst. rewrite Hfl.
     unfold hinv in Hi. destruct (ha_initialized sa) eqn:Ein.
     + specialize (Hrep eq_refl).
-      destruct (heap_alloc_raw_sim c _ _ _ _ _ _ live n Hi Hrep Hspan Hd) as (bc' & m' & Hca & Hrep').
+      destruct (heap_alloc_raw_sim c _ _ _ _ _ _ live n Hi Hrep Hspan Hd) as (bc' & m' & Hca & Hrep' & Hfr').
       rewrite Hca. destruct (ha_alloc_raw (ha_chunks sa) (ha_bins sa) n) as [[ch b] p] eqn:Ea. cbn [fst snd] in *.
       inversion Hst; subst sa' live'. eexists. eexists. eexists. split; [reflexivity|]. split; [exact Hst0|].
-      split; [exact Hi'|]. apply SR_live; [reflexivity | reflexivity | exact Hrep'].
+      split; [exact Hi'|]. split; [apply SR_live; [reflexivity | reflexivity | exact Hrep']|].
+      cbn [h_mem]. unfold hinv in Hi'. cbn [ha_initialized ha_chunks ha_bins] in Hi'.
+      exact (payload_of_hframe _ _ _ _ _ _ _ _ _ _ Hi Hi' Hfr').
     + subst live. destruct (init_sim c s Hc (Hnom eq_refl)) as (bins0 & m0 & Hin & Hrep0). rewrite Hin.
       rewrite (heap_init_shape c Hc) in Hst. cbn [ha_chunks ha_bins] in Hst.
       destruct (heap_init_ok c Hc) as (ch0 & b0 & Hin0 & Hr0).
       rewrite (heap_init_shape c Hc) in Hin0. inversion Hin0; subst ch0 b0. clear Hin0.
       cbn [h_bins h_mem].
-      destruct (heap_alloc_raw_sim c _ _ _ _ _ _ [] n Hr0 Hrep0 Hspan Hd) as (bc' & m' & Hca & Hrep').
+      destruct (heap_alloc_raw_sim c _ _ _ _ _ _ [] n Hr0 Hrep0 Hspan Hd) as (bc' & m' & Hca & Hrep' & _).
       rewrite Hca. destruct (ha_alloc_raw _ _ n) as [[ch b] p] eqn:Ea. cbn [fst snd] in *.
       inversion Hst; subst sa' live'. eexists. eexists. eexists. split; [reflexivity|]. split; [exact Hst0|].
-      split; [exact Hi'|]. apply SR_live; [reflexivity | reflexivity | exact Hrep'].
+      split; [exact Hi'|]. split; [apply SR_live; [reflexivity | reflexivity | exact Hrep']|].
+      intros b0 b0' [].
   - (* dealloc *)
     destruct (nth_error live i) as [b|] eqn:Hn.
-    2:{ inversion Hst; subst. eexists. eexists. eexists. split; [reflexivity|]. split; [exact Hst0|]. split; [exact Hi | exact (conj Hfl (conj Hrep Hnom))]. }
+    2:{ inversion Hst; subst. eexists. eexists. eexists. split; [reflexivity|]. split; [exact Hst0|]. split; [exact Hi | split; [exact (conj Hfl (conj Hrep Hnom)) | apply payload_refl]]. }
     unfold hinv in Hi. destruct (ha_initialized sa) eqn:Ein; [|subst live; destruct i; discriminate].
     specialize (Hrep eq_refl).
-    destruct (heap_dealloc_raw_sim _ _ _ _ _ _ live i b Hi Hrep Hn) as (bc' & m' & ch' & ba' & Had & Hcd & Hrep').
+    destruct (heap_dealloc_raw_sim _ _ _ _ _ _ live i b Hi Hrep Hn) as (bc' & m' & ch' & ba' & Had & Hcd & Hrep' & Hfr').
     unfold hp_dealloc. rewrite Hcd. unfold ha_dealloc in Hst. rewrite Had in Hst. inversion Hst; subst sa' live'.
     eexists. eexists. eexists. split; [reflexivity|]. split; [exact Hst0|]. split; [exact Hi'|].
-    apply SR_live; [cbn; rewrite Hfl; symmetry; exact Ein | exact Ein | exact Hrep'].
+    split; [apply SR_live; [cbn; rewrite Hfl; symmetry; exact Ein | exact Ein | exact Hrep']|].
+    cbn [h_mem]. unfold hinv in Hi'. cbn [ha_initialized ha_chunks ha_bins] in Hi'. rewrite Ein in Hi'.
+    exact (payload_of_hframe _ _ _ _ _ _ _ _ _ _ Hi Hi' Hfr').
   - (* realloc *)
     destruct (nth_error live i) as [b|] eqn:Hn.
-    2:{ inversion Hst; subst. eexists. eexists. eexists. split; [reflexivity|]. split; [exact Hst0|]. split; [exact Hi | exact (conj Hfl (conj Hrep Hnom))]. }
+    2:{ inversion Hst; subst. eexists. eexists. eexists. split; [reflexivity|]. split; [exact Hst0|]. split; [exact Hi | split; [exact (conj Hfl (conj Hrep Hnom)) | apply payload_refl]]. }
     pose proof Hi as Hi0. unfold hinv in Hi. destruct (ha_initialized sa) eqn:Ein; [|subst live; destruct i; discriminate].
     specialize (Hrep eq_refl). cbn [hop_usize] in Hd. unfold usize in Hd.
     unfold hp_realloc, ensure_init. unfold ha_realloc, ha_ensure_init in Hst. rewrite Hfl, Ein in *.
@@ -181,18 +221,22 @@ Proof.
     + (* same size: the states do not change *)
       destruct (n =? 0).
       * inversion Hst; subst sa' live'. eexists. eexists. eexists. split; [reflexivity|]. split; [exact Hst0|]. split; [exact Hi'|].
-        apply SR_live; [rewrite Ein; exact Hfl | exact Ein | exact Hrep].
+        split; [apply SR_live; [rewrite Ein; exact Hfl | exact Ein | exact Hrep] | apply payload_refl].
       * rewrite Hnz in *. inversion Hst; subst sa' live'. eexists. eexists. eexists. split; [reflexivity|]. split; [exact Hst0|].
-        split; [exact Hi'|]. apply SR_live; [rewrite Ein; exact Hfl | exact Ein | exact Hrep].
+        split; [exact Hi'|]. split; [apply SR_live; [rewrite Ein; exact Hfl | exact Ein | exact Hrep] | apply payload_refl].
     + destruct (Z.eq_dec n 0) as [-> | Hn0].
-      * destruct (heap_dealloc_raw_sim _ _ _ _ _ _ live i b Hi Hrep Hn) as (bc' & m' & ch' & ba' & Had & Hcd & Hrep').
+      * destruct (heap_dealloc_raw_sim _ _ _ _ _ _ live i b Hi Hrep Hn) as (bc' & m' & ch' & ba' & Had & Hcd & Hrep' & Hfr').
         unfold heap_realloc_raw. unfold ha_realloc_raw in Hst. rewrite Hnz in *. cbn [Z.eqb] in *. rewrite Hcd. rewrite Had in Hst.
         inversion Hst; subst sa' live'. eexists. eexists. eexists. split; [reflexivity|]. split; [exact Hst0|].
-        split; [exact Hi'|]. apply SR_live; [reflexivity | reflexivity | exact Hrep'].
-      * destruct (heap_realloc_raw_sim c _ _ _ _ _ _ live i b n Hi Hrep Hspan Hn ltac:(lia)) as (bc' & m' & ch' & ba' & q & Har & Hcr & Hrep').
+        split; [exact Hi'|]. split; [apply SR_live; [reflexivity | reflexivity | exact Hrep']|].
+        cbn [h_mem]. unfold hinv in Hi'. cbn [ha_initialized ha_chunks ha_bins] in Hi'.
+        exact (payload_of_hframe _ _ _ _ _ _ _ _ _ _ Hi Hi' Hfr').
+      * destruct (heap_realloc_raw_sim c _ _ _ _ _ _ live i b n Hi Hrep Hspan Hn ltac:(lia)) as (bc' & m' & ch' & ba' & q & Har & Hcr & Hrep' & Hfr').
         rewrite Hcr. rewrite Har in Hst. apply Z.eqb_neq in Hn0. rewrite Hn0 in *.
         destruct (q =? 0); inversion Hst; subst sa' live'; eexists; eexists; eexists;
-          (split; [reflexivity|]); (split; [exact Hst0|]); (split; [exact Hi'|]); (apply SR_live; [reflexivity | reflexivity | exact Hrep']).
+          (split; [reflexivity|]); (split; [exact Hst0|]); (split; [exact Hi'|]); (split; [apply SR_live; [reflexivity | reflexivity | exact Hrep']|]);
+          cbn [h_mem]; unfold hinv in Hi'; cbn [ha_initialized ha_chunks ha_bins] in Hi';
+          exact (payload_two _ _ _ _ _ _ _ _ _ _ Hi Hi' Hfr').
   - inversion Hst; subst.
     assert (Hda : exists s1, hp_deallocall c s = HOk s1 /\ h_initialized s1 = false /\ no_marks (h_mem s1)).
     { unfold hp_deallocall. rewrite Hfl. unfold hinv in Hi. destruct (ha_initialized sa) eqn:Ein.
@@ -210,7 +254,8 @@ Proof.
       - eexists. split; [reflexivity|]. split; [reflexivity | exact (Hnom eq_refl)]. }
     destruct Hda as (s1 & Hd1 & Hin1 & Hnm1). rewrite Hd1.
     eexists. eexists. eexists. split; [reflexivity|]. split; [exact Hst0|]. split; [exact Hi'|].
-    split; [exact Hin1|]. split; [cbn; discriminate | intros _; exact Hnm1].
+    split; [split; [exact Hin1|]; split; [cbn; discriminate | intros _; exact Hnm1]|].
+    intros b0 b0' _ [].
 Qed.
 
 (* ---------- whole histories ---------- *)
@@ -222,7 +267,7 @@ Lemma crun_sim c ops : forall s sa live,
 Proof.
   induction ops as [|o r IH]; intros s sa live Hc Hi Hsr Hd; cbn [crun hrun].
   - exists s, sa, live. auto.
-  - inversion Hd; subst. destruct (cstep_sim c s sa live o Hc Hi Hsr H1) as (s1 & sa1 & l1 & -> & -> & Hi1 & Hsr1).
+  - inversion Hd; subst. destruct (cstep_sim c s sa live o Hc Hi Hsr H1) as (s1 & sa1 & l1 & -> & -> & Hi1 & Hsr1 & _).
     apply IH; assumption.
 Qed.
 
@@ -338,4 +383,22 @@ Proof.
   specialize (H eq_refl ltac:(unfold two64; lia)).
   assert (Hn : ~ In 208 (map b_addr [mkblk 48 8])) by (cbn; intros [Hx | []]; discriminate Hx).
   specialize (H Hn). vm_compute in H. discriminate H.
+Qed.
+
+(* the allocator's own writes never land in a live payload: after any history, every operation
+   (alloc, dealloc, realloc - in place or moving -, deallocall, including the lazy initialisation)
+   leaves unchanged every word overlapping a block that is live before and after it, up to the
+   smaller of its two sizes (realloc in place).  All the writes of the memory-level model go to
+   header words of chunks of the old or the new state, and those lie outside every live payload. *)
+Theorem heap_mem_payload_frame_proof : forall c ops s live o s' live',
+  hcfg_ok c -> Forall hop_usize ops -> hop_usize o ->
+  crun c (heap_init_state, []) ops = Some (s, live) ->
+  cstep c (s, live) o = Some (s', live') ->
+  payload_frame live live' (h_mem s) (h_mem s').
+Proof.
+  intros c ops s live o s' live' Hc Hd Ho Hcr Hst.
+  destruct (crun_sim c ops heap_init_state ha_init_state [] Hc (hinv_init c) (SR_init c) Hd) as (s0 & sa & l0 & H1 & H2 & Hi & Hsr).
+  rewrite Hcr in H1. inversion H1; subst s0 l0. clear H1.
+  destruct (cstep_sim c s sa live o Hc Hi Hsr Ho) as (s1 & sa1 & l1 & Hs1 & _ & _ & _ & Hp).
+  rewrite Hst in Hs1. inversion Hs1; subst s1 l1. exact Hp.
 Qed.
